@@ -10,15 +10,15 @@ ID = "C02"
 TITLE = "Parsers accept exactly the documented language; all else is a SyntaxError"
 ENGINE = "e1-bounded-enumeration"
 
-CHARS = ["[", "]", "(", ")", "0", "1", "P", "U", "X", ".", "B", " ", "M", "u", "∧", "b"]
-TOKENS = ["[1]", "[23P]", "[4P0..1]", "[UB1]", "(", ")", "U", "o", "⊻", " ", "[", "]", "Muss", "K", "x", "Soll"]
+CHARS = ["[", "]", "(", ")", "0", "1", "P", "U", "X", ".", "B", " ", "M", "u", "∧", "b", "\n"]
+TOKENS = ["[1]", "[23P]", "[4P0..1]", "[UB1]", "(", ")", "U", "o", "⊻", " ", "[", "]", "Muss", "K", "x", "Soll", "\t\n"]
 # near-miss atoms substituted for an atom of a well-formed expression (the reference decides which of them are legal)
 NEAR_ATOMS = ["[1p]", "[ub1]", "[Ub2]", "[UB4]", "[UB0]", "[UB]", "[ 1 ]", "[1 2]", "[1 P]", "[UB 1]", "[U B1]", "[1P0 ..1]",
               "[1P0.. 1]", "[1P 0..1]", "[1P0..0]", "[1P0..01]", "[1P..1]", "[1P0.1]", "[1P0...1]", "[1P1..]", "[P]", "[]",
               "[ ]", "[1", "1]", "[[1]]", "[1].", "[-1]", "[+1]", "[1.0]", "[1,2]", "[0]", "[007]", "[1P2P]", "[1PP]", "[1P0..1P]",
               "[UB1P]", "[1UB1]", "{1}", "<1>", "[1]]", "[[1]", "[1a]", "[a]", "[M]", "[1]P", "[x]", "[1 ]", "()", "([1]",
               "[1])", ")[1](", "([1])", "(([1]))", "[1]()", "()[1]"]
-EDIT_TOKENS = ["[9]", "(", ")", "U", "O", "X", "∨", " ", "Muss", "K", "["]
+EDIT_TOKENS = ["[9]", "(", ")", "U", "O", "X", "∨", " ", "\n", "\r\n\t", "\f", "Muss", "K", "["]
 SPECIAL = ["", " ", "\t", "\n", "\x00", "\ud800", "[1]\x00", "\x00[1]", "(" * 400, ")" * 400, "[" * 400, "(" * 30 + "[1]" + ")" * 30,
            "(" * 30 + "[1]" + ")" * 29, "[1]" * 40, "[1]U" * 40, "Muss" * 10, "Muss [1]" * 6, "﻿[1]", "[1] U[2]",
            "[１]", "[1] U[2]", "Muss [1]", "ſoll [1]", "Muß [1]", "[1] ∪ [2]", "[1] V [2]", "[1] & [2]", "[1] | [2]",
